@@ -49,7 +49,7 @@ class Ob:
         key = f"{self.id}/{construct}" + (f"/{detail}" if detail else "")
         if any(f.key == key for f in self.findings):
             return
-        drift = self._calling_convention_changed(construct)
+        drift = self._calling_convention_changed(construct, detail)
         if drift is not None:
             self.undecide(f"{construct.rsplit('.', 1)[-1]}: {drift} - the rule reads calls by the pinned calling convention (`{detail or message[:40]}` not confirmed)")
             return
@@ -61,41 +61,53 @@ class Ob:
             return
         self.findings.append(Finding(key, where, message, witness))
 
-    def _calling_convention_changed(self, construct: str) -> str | None:
-        """The finding sits in (or in a caller of) a pinned function one of whose REQUIRED parameters has become
-        optional or has gone: calls of it may now be written in a form the pinned tree did not have
-        (``format_curie(reference)`` for ``format_curie(prefix, identifier)``), which the rules do not read."""
+    def _calling_convention_changed(self, construct: str, detail: str = "") -> str | None:
+        """The finding sits in a function that USES a changed calling convention of a pinned function, which the
+        rules do not read:
+        (shim) a required parameter P that became ``P=None`` and is re-bound from another argument under an
+               ``is None`` test (``format_curie(reference)`` for ``format_curie(prefix, identifier)``) - in the
+               function itself and in callers that pass fewer arguments than the pinned tree required;
+        (renamed) a pinned parameter that no longer exists - in callers that pass a keyword the pinned signature does
+               not have, and in the function itself for findings that name the lost parameter.
+        A formerly required parameter that merely got a default (``case_sensitive=True``) is NOT such a change: the
+        function is read with that default where a caller leaves it out - which is how such defects are found."""
         cx = getattr(self, "cx", None)
         if cx is None:
             return None
+        import ast as _ast
+
         drifted = cx.model.__dict__.get("_drifted")
         if drifted is None:
             import json as _json
 
             drifted = {}
+            here = pathlib.Path(__file__).parent
             try:
-                req = _json.loads((pathlib.Path(__file__).parent / "known_required.json").read_text())
+                req = _json.loads((here / "known_required.json").read_text())
+                sigs = _json.loads((here / "known_signatures.json").read_text())
             except Exception:  # noqa: BLE001
-                req = {}
-            for q, names in req.items():
+                req, sigs = {}, {}
+            for q, names in sigs.items():
                 f = cx.model.functions.get(q)
                 if f is None:
                     continue
-                now_required = {p.name for p in f.params if p.default is None and p.kind in ("pos", "kwonly")}
-                lost = [n for n in names if n not in now_required and n not in ("self", "cls")]
-                if lost:
-                    drifted[f.name] = f"`{f.name}` no longer requires {lost} (the calling convention of a pinned function has changed)"
-            try:
-                sigs = _json.loads((pathlib.Path(__file__).parent / "known_signatures.json").read_text())
-            except Exception:  # noqa: BLE001
-                sigs = {}
-            for q, names in sigs.items():
-                f = cx.model.functions.get(q)
-                if f is None or f.name in drifted:
-                    continue
                 gone = [n for n in names if f.param(n) is None]
                 if gone:
-                    drifted[f.name] = f"`{f.name}` no longer has the parameter(s) {gone} (renamed or removed: the calling convention of a pinned function has changed)"
+                    drifted[f.name] = ("renamed", gone, set(names), f"`{f.name}` no longer has the parameter(s) {gone} (renamed or removed)")
+                    continue
+                shim = []
+                for n in req.get(q, []):
+                    prm = f.param(n)
+                    if n in ("self", "cls") or prm is None or prm.default is None or not (isinstance(prm.default, _ast.Constant) and prm.default.value is None):
+                        continue
+                    rebound = any(isinstance(x, _ast.Name) and x.id == n and isinstance(x.ctx, _ast.Store) for x in _ast.walk(f.node))
+                    handed = any(isinstance(x, _ast.Call) and any(isinstance(a, _ast.Name) and a.id == n for a in x.args) for x in _ast.walk(f.node))
+                    aliased = any(isinstance(x, _ast.Assign) and isinstance(x.value, _ast.Name) and x.value.id == n for x in _ast.walk(f.node))
+                    if rebound or aliased:
+                        shim.append(n)
+                if shim:
+                    n_req = len([n for n in req.get(q, []) if n not in ("self", "cls")])
+                    drifted[f.name] = ("shim", shim, n_req, f"`{f.name}` now takes {shim} optionally and fills it in from its other argument(s)")
             cx.model.__dict__["_drifted"] = drifted
         if not drifted:
             return None
@@ -103,14 +115,19 @@ class Ob:
         if fn is None:
             return None
         if fn.name in drifted:
-            return drifted[fn.name]
-        import ast as _ast
-
+            kind, params, extra, text = drifted[fn.name]
+            if kind == "shim" or any(p_ in detail for p_ in params):
+                return text
         for n in _ast.walk(fn.node):
             if isinstance(n, _ast.Call):
                 nm = n.func.attr if isinstance(n.func, _ast.Attribute) else n.func.id if isinstance(n.func, _ast.Name) else None
-                if nm in drifted:
-                    return drifted[nm]
+                if nm not in drifted:
+                    continue
+                kind, params, extra, text = drifted[nm]
+                if kind == "shim" and not any(isinstance(a, _ast.Starred) for a in n.args) and len(n.args) + len([k for k in n.keywords if k.arg]) < extra:
+                    return text
+                if kind == "renamed" and any(k.arg is not None and k.arg not in extra for k in n.keywords):
+                    return text
         return None
 
     def funnel(self, construct: str, where: str, message: str, through: bool, expected: str, witness: str = "", detail: str = "callee", wrong: bool = False) -> None:
